@@ -217,30 +217,25 @@ def c02_rmuse(R):
         n += 1
         used = False
         refuses = False
-        # polymorphic handler (fpToFP): judge each arm in which the first argument *is* a rounding mode
-        arms = [
-            st
-            for st in fn.body
-            if isinstance(st, ast.If)
-            and any(
-                isinstance(c, ast.Call) and dotted(c.func) == "isinstance" and ast.unparse(c.args[0]) == rm
-                and ast.unparse(c.args[1]) == "RM"
-                for c in ast.walk(st.test)
+        # polymorphic handler (fpToFP): judge each arm in which the first argument *is* a rounding mode.  An arm is a
+        # value-returning path together with the isinstance() facts that hold on it (compound test or nested ifs)
+        arm_rets = []
+        for r in (x for x in walk_no_nested(fn) if isinstance(x, ast.Return) and x.value is not None):
+            tests = sorted(
+                ast.unparse(t)
+                for t, pol in guards.guards_of(r)
+                if pol and isinstance(t, ast.Call) and dotted(t.func) == "isinstance"
             )
-        ]
-        if arms:
-            for st in arms:
-                body_uses = any(
-                    isinstance(x, ast.Name) and x.id == rm and isinstance(x.ctx, ast.Load) for b in st.body for x in ast.walk(b)
-                )
-                body_refuses = any(isinstance(x, ast.Raise) and "BackendError" in ast.unparse(x) for b in st.body for x in ast.walk(b))
-                arm_txt = " and ".join(
-                    ast.unparse(c) for c in ast.walk(st.test) if isinstance(c, ast.Call) and dotted(c.func) == "isinstance"
-                )
+            if f"isinstance({rm}, RM)" in tests:
+                arm_rets.append((r, tests))
+        if arm_rets:
+            for r, tests in arm_rets:
+                body_uses = util.depends_on(r.value, {rm}, fn)
+                arm_txt = " and ".join(tests)
                 R.check(
-                    body_uses or body_refuses,
+                    body_uses,
                     fn._module,
-                    st,
+                    r,
                     f"concrete {name} honours its rounding mode in the arm `{arm_txt}`",
                     f"concrete {name}: the arm `{arm_txt}` converts without reading the rounding mode `{rm}`: the "
                     f"conversion folds with round-to-nearest-even whatever mode the caller wrote",
@@ -473,12 +468,25 @@ def c05_length(R):
         construct="If length",
     )
     ab = tree.func(Z3, "BackendZ3._abstract_internal")
-    Fab = util.Frags(ab)
+    # with the single-assignment locals resolved: the generic node is built with length=<L>, and on the
+    # bit-vector-sort path <L> is the size of the Z3 sort of the very term being abstracted
+    abr = util.resolve_locals(ab)
+    builds = [
+        c
+        for c in ast.walk(abr)
+        if isinstance(c, ast.Call) and isinstance(util.kw(c, "length"), ast.Name) and len(c.args) == 2 and ast.unparse(c.args[1]).startswith("tuple(")
+    ]
+    widths = {util.kw(c, "length").id for c in builds}
+    sized = [
+        st
+        for st in ast.walk(abr)
+        if isinstance(st, ast.Assign)
+        and isinstance(st.targets[0], ast.Name)
+        and st.targets[0].id in widths
+        and ast.unparse(st.value) == "z3.Z3_get_bv_sort_size(ctx, z3.Z3_get_sort(ctx, ast))"
+    ]
     R.check(
-        Fab.has("z3_sort = z3.Z3_get_sort(ctx, ast)")
-        and Fab.has("op_name = op_map[z3_op_nums[decl_num]]")
-        and Fab.has("a = result_ty(op_name, tuple(args), length=length)")  # fixes which local is the width
-        and Fab.has("length = z3.Z3_get_bv_sort_size(ctx, z3_sort)"),
+        len(builds) >= 1 and len(sized) >= 1,
         tree.mod(Z3),
         ab,
         "Z3 abstraction takes the width from the Z3 sort",
